@@ -1,0 +1,130 @@
+// Verification hooks. Compiled only with the cargo feature `verif-hooks` (off by default).
+//
+// Nothing in here changes what the library computes: `tick` counts logical steps of the
+// lexers (and can cut an execution short by unwinding when a caller-armed fuel limit runs
+// out), `cache_event` records what the namespace caches did, and `yield_point` lets a test
+// harness widen the windows between the cache's critical sections.
+
+use std::cell::{Cell, RefCell};
+use std::sync::atomic::{AtomicBool, AtomicU64, AtomicUsize, Ordering};
+
+/// `Scanner::read`
+pub const SITE_SCANNER_READ: usize = 0;
+/// zinc `Lexer::read`
+pub const SITE_ZINC_LEXER_READ: usize = 1;
+/// filter `Lexer::read`
+pub const SITE_FILTER_LEXER_READ: usize = 2;
+pub const N_SITES: usize = 3;
+
+/// Panic payload used when an armed fuel limit is exhausted.
+#[derive(Debug, Clone, Copy)]
+pub struct FuelExhausted {
+    pub site: usize,
+}
+
+thread_local! {
+    static TICKS: Cell<[u64; N_SITES]> = const { Cell::new([0; N_SITES]) };
+    static FUEL: Cell<u64> = const { Cell::new(u64::MAX) };
+    static EVENTS: RefCell<Vec<CacheEvent>> = const { RefCell::new(Vec::new()) };
+}
+
+/// Count one logical step at `site`; unwinds with [FuelExhausted] if the armed fuel is spent.
+#[inline]
+pub fn tick(site: usize) {
+    TICKS.with(|t| {
+        let mut v = t.get();
+        v[site] += 1;
+        t.set(v);
+    });
+    let exhausted = FUEL.with(|f| {
+        let left = f.get();
+        if left == u64::MAX {
+            false
+        } else if left == 0 {
+            f.set(u64::MAX);
+            true
+        } else {
+            f.set(left - 1);
+            false
+        }
+    });
+    if exhausted {
+        std::panic::panic_any(FuelExhausted { site });
+    }
+}
+
+/// Reset the step counters of this thread and arm a fuel limit (`u64::MAX` = unlimited).
+pub fn arm(fuel: u64) {
+    TICKS.with(|t| t.set([0; N_SITES]));
+    FUEL.with(|f| f.set(fuel));
+}
+
+/// Disarm the fuel limit and return the per-site step counts since `arm`.
+pub fn disarm() -> [u64; N_SITES] {
+    FUEL.with(|f| f.set(u64::MAX));
+    TICKS.with(|t| t.get())
+}
+
+pub const CACHE_SUPERTYPES: u8 = 0;
+pub const CACHE_INHERITANCE: u8 = 1;
+
+pub const EV_HIT: u8 = 0;
+pub const EV_MISS: u8 = 1;
+pub const EV_COMPUTED: u8 = 2;
+pub const EV_LOST_RACE: u8 = 3;
+pub const EV_INSERTED: u8 = 4;
+
+#[derive(Debug, Clone, PartialEq, Eq)]
+pub struct CacheEvent {
+    pub stamp: u64,
+    pub cache: u8,
+    pub kind: u8,
+    pub symbol: String,
+}
+
+static RECORDING: AtomicBool = AtomicBool::new(false);
+static STAMP: AtomicU64 = AtomicU64::new(0);
+static YIELD_FN: AtomicUsize = AtomicUsize::new(0);
+
+/// Switch event recording on or off (all threads).
+pub fn set_recording(on: bool) {
+    RECORDING.store(on, Ordering::Relaxed);
+}
+
+/// Record a cache event in this thread's buffer. Stamps come from one relaxed counter so the
+/// recording adds no happens-before edge between threads.
+#[inline]
+pub fn cache_event(cache: u8, kind: u8, symbol: &str) {
+    if RECORDING.load(Ordering::Relaxed) {
+        let stamp = STAMP.fetch_add(1, Ordering::Relaxed);
+        EVENTS.with(|e| {
+            e.borrow_mut().push(CacheEvent {
+                stamp,
+                cache,
+                kind,
+                symbol: symbol.to_string(),
+            })
+        });
+    }
+}
+
+/// Take this thread's recorded events.
+pub fn take_events() -> Vec<CacheEvent> {
+    EVENTS.with(|e| std::mem::take(&mut *e.borrow_mut()))
+}
+
+/// Install (or remove) the function called at every yield point.
+pub fn set_yield_fn(f: Option<fn(usize)>) {
+    YIELD_FN.store(f.map_or(0, |f| f as usize), Ordering::Relaxed);
+}
+
+/// A point between two critical sections of a cache; calls the installed function, if any.
+#[inline]
+pub fn yield_point(site: usize) {
+    let f = YIELD_FN.load(Ordering::Relaxed);
+    if f != 0 {
+        // SAFETY: only `set_yield_fn` stores here, and it stores a valid `fn(usize)`.
+        let f: fn(usize) = unsafe { std::mem::transmute::<usize, fn(usize)>(f) };
+        f(site);
+    }
+}
